@@ -73,6 +73,9 @@ type ConcProject struct {
 	// SharedBan: build with these ban options, each a process-wide Option VALUE that every build naming the same kinds reuses
 	// (a caller may keep its options in variables); nil = no option.
 	SharedBan [][]string `json:"shared_ban,omitempty"`
+	// Files: a project on disk (INCLUDE); Root is its root file. The worker writes the files once, into a directory of its own.
+	Files map[string][]byte `json:"files,omitempty"`
+	Root  string            `json:"root,omitempty"`
 }
 
 type ErrInfo struct {
@@ -204,7 +207,7 @@ type Result struct {
 	SeqCalls int           `json:"seqCalls,omitempty"`
 	Conc     *ConcResult   `json:"conc,omitempty"`
 	Probes   []ProbeResult `json:"probes,omitempty"`
-	OptSigs   []string      `json:"opt_sigs,omitempty"`
+	OptSigs  []string      `json:"opt_sigs,omitempty"`
 	// WorkerErr: the worker could not even set the case up (harness problem, inconclusive).
 	WorkerErr string `json:"workerErr,omitempty"`
 	// Fatal is filled by the driver when the worker died during this job.
